@@ -10,7 +10,7 @@ git apply "$M/patch.diff" || { echo "patch does not apply"; exit 2; }
 PYTHONPATH="$WT" /venv/bin/python "$M/demo.py" >"$M/demo_with_patch.out" 2>&1; c1=$?
 echo "demo: clean exit=$c0, patched exit=$c1" | tee "$M/confirm.txt"
 OUT=$(mktemp /tmp/junit.XXXXXX.xml)
-env -u PANDERA_VERIF PYTHONPATH="$WT" nice -n 19 /venv/bin/python -m pytest -ra -q -p no:cacheprovider --timeout=900 --continue-on-collection-errors --junitxml="$OUT" >/dev/null 2>&1
+env -u PANDERA_VERIF PYTHONPATH="$WT" /venv/bin/python -m pytest -ra -q -p no:cacheprovider --timeout=900 --continue-on-collection-errors --junitxml="$OUT" >/dev/null 2>&1
 /venv/bin/python - "$OUT" <<'P' | tee -a "$M/confirm.txt"
 import json, sys, xml.etree.ElementTree as ET
 b = json.load(open("/root/.vp/BASELINE.json"))
